@@ -326,6 +326,9 @@ def run(tier):
     # the whole 64-bit sequence number enters the MAC / AAD / nonce: a record cannot be replayed 2^32 records later (shared with C20)
     from .c20 import seq_encoding
     seq_encoding(chk)
+    # AES-GCM records: every ciphertext byte enters GHASH (the pclmul tail staging; shared with C12)
+    from .c12 import ghash_pclmul_tail
+    ghash_pclmul_tail(chk)
     from .. import lints as _lints_ir
     _lints_ir.ignored_result_regression(chk, ['src/ssl/ssl_rec'])
     return chk.finish()
